@@ -11,7 +11,7 @@ from gsverif.oracles import rot as orot
 
 SHARDS = {"quick": 8, "thorough": 16}
 TIMEOUT = {"quick": 900, "thorough": 3600}
-REQUIRED_EVENTS = ["rot_matrix_compared", "iso_roundtrips", "pipeline_fields_compared"]
+REQUIRED_EVENTS = ["rot_matrix_compared", "iso_roundtrips", "pipeline_fields_compared", "live_transforms_compared"]
 RULE = (
     "seeded configurations (dim 1-4, angle vectors incl. 0, +-pi/2, pi, >2pi, ratios 1e-3..1e3, models); "
     "a case is non-trivial if at least one anisotropy ratio != 1 or one angle != 0 (dim>1) or it is a padding-rule case"
@@ -59,6 +59,16 @@ def generate(tier, seed):
                                    "len_scale": round(float(rng.uniform(0.5, 5)), 3), "nugget": float(rng.choice([0.0, 0.3]))}))
     for rep in range(20 * n):
         cases.append(("padding", {"dim": int(rng.integers(1, 5)), "pseed": int(rng.integers(1 << 30))}))
+    for rep in range(30 * n):
+        for dim in (2, 3, 4):
+            a0, e0 = _draw_geom(rng, dim, hostile=False)
+            steps = []
+            for _ in range(int(rng.integers(1, 4))):
+                a1, e1 = _draw_geom(rng, dim, hostile=False)
+                steps.append({"route": str(rng.choice(["anis", "angles", "len_scale_list", "integral_scale_list", "len_scale_scalar", "dim"])),
+                              "angles": a1, "anis": e1, "len_scale": round(float(rng.uniform(0.5, 5)), 3)})
+            cases.append(("live", {"dim": dim, "angles": a0, "anis": e0, "steps": steps, "pseed": int(rng.integers(1 << 30)),
+                                   "name": str(rng.choice(["Gaussian", "Exponential", "Stable", "Matern"]))}))
     gens = ["RandMeth", "IncomprRandMeth", "Fourier"]
     for rep in range(14 * n):
         for dim in (1, 2, 3):
@@ -185,6 +195,88 @@ def check_axes(ctx, c):
                          f"{sp}(t*axis_{i}) != {iso}(t/anis): {common.maxabs(got_sp-want):.2e}")
             if common.maxabs(got_ax - want) > 1e-12 * max(1.0, float(model.sill)):
                 ctx.fail({"what": f"{ax}", "dim": dim, "axis": i}, f"{ax}(t, axis={i}) != {iso}(t/anis)")
+
+
+def check_live(ctx, c):
+    """Geometry updates on a live (already used) model: every transform follows the geometry the model reports now."""
+    dim = c["dim"]
+    rng = np.random.default_rng(c["pseed"])
+    with warnings.catch_warnings():
+        warnings.simplefilter("ignore")
+        model = getattr(gs, c["name"])(dim=dim, len_scale=2.0, anis=c["anis"], angles=c["angles"])
+    ctx.cell(f"live/dim{dim}")
+
+    def use(model, want_angles, want_anis, route):
+        d = model.dim
+        x = rng.normal(size=(d, 9)) * 3
+        mech = {"what": "live-update", "route": route}
+        if want_anis is not None and common.maxabs(np.asarray(model.anis) - np.asarray(want_anis)) > 1e-12 * max(1.0, common.maxabs(want_anis)):
+            ctx.fail(dict(mech, what="anis-after-update"), f"route {route}: anis {model.anis}, expected {want_anis}")
+            return False
+        if want_angles is not None and common.maxabs(np.asarray(model.angles) - np.asarray(want_angles)) > 0:
+            ctx.fail(dict(mech, what="angles-after-update"), f"route {route}: angles {model.angles}, expected {want_angles}")
+            return False
+        angles, anis = [float(a) for a in model.angles], [float(e) for e in model.anis]
+        ref = orot.isometrize(d, angles, anis, x)
+        iso = model.isometrize(x)
+        ctx.event("live_transforms_compared")
+        sc = max(1.0, common.maxabs(ref))
+        if common.maxabs(iso - ref) / sc > 1e-12:
+            ctx.fail(dict(mech, what="isometrize-ignores-current-geometry"), f"after {route}: isometrize differs from the oracle for the reported anis/angles by {common.maxabs(iso-ref)/sc:.2e}")
+            return False
+        back = model.anisometrize(iso)
+        if common.maxabs(back - x) / max(1.0, common.maxabs(x)) > 1e-11:
+            ctx.fail(dict(mech, what="anisometrize(isometrize)!=id-after-update"), f"after {route}: round trip error {common.maxabs(back-x):.2e}")
+            return False
+        r = np.linalg.norm(ref, axis=0)
+        if common.maxabs(model.cov_spatial(x) - model.covariance(r)) > 1e-10 * max(1.0, float(model.sill)):
+            ctx.fail(dict(mech, what="cov_spatial-ignores-current-geometry"), f"after {route}: cov_spatial != covariance(oracle radius)")
+            return False
+        rot = orot.rot(d, angles)
+        ax = model.main_axes()
+        if common.maxabs(np.asarray(ax).T - rot) > 1e-13:
+            ctx.fail(dict(mech, what="main_axes-ignore-current-geometry"), f"after {route}")
+            return False
+        return True
+
+    if not use(model, c["angles"], c["anis"], "init"):
+        return
+    for st in c["steps"]:
+        route = st["route"]
+        d = model.dim
+        na = d * (d - 1) // 2
+        want_angles = want_anis = None
+        with warnings.catch_warnings():
+            warnings.simplefilter("ignore")
+            if route == "anis":
+                model.anis = st["anis"][: d - 1]
+                want_anis = orot.pad_anis(d, st["anis"][: d - 1])
+            elif route == "angles":
+                model.angles = st["angles"][:na]
+                want_angles = (st["angles"][:na] + [0.0] * na)[:na]  # too few angles are filled up with 0
+            elif route == "len_scale_list":
+                ls = [st["len_scale"]] + [st["len_scale"] * e for e in st["anis"][: d - 1]]
+                model.len_scale = ls
+                full = ls + [ls[-1]] * (d - len(ls))  # too few length scales: the last one is repeated
+                want_anis = [v / full[0] for v in full[1:]] if len(ls) > 1 else None
+            elif route == "integral_scale_list":
+                ls = [st["len_scale"]] + [st["len_scale"] * e for e in st["anis"][: d - 1]]
+                model.integral_scale = ls
+                full = ls + [ls[-1]] * (d - len(ls))
+                want_anis = [v / full[0] for v in full[1:]] if len(ls) > 1 else None
+            elif route == "len_scale_scalar":
+                keep = [float(e) for e in model.anis]
+                model.len_scale = st["len_scale"]
+                want_anis = keep
+            elif route == "dim":
+                nd = int(2 + (d - 1) % 3)  # 2->3->4->2
+                keep_e, keep_a = [float(e) for e in model.anis], [float(a) for a in model.angles]
+                model.dim = nd
+                cut = keep_e[: nd - 1]  # documented rule: too few ratios are filled up with 1 at the front
+                want_anis = [1.0] * (nd - 1 - len(cut)) + cut
+                want_angles = (keep_a + [0.0] * 6)[: nd * (nd - 1) // 2]
+        if not use(model, want_angles, want_anis, route):
+            return
 
 
 def check_padding(ctx, c):
@@ -355,6 +447,7 @@ def check_pipe_krige(ctx, c):
 
 
 CHECKS = {
+    "live": check_live,
     "rot_matrix": check_rot_matrix,
     "iso": check_iso,
     "axes": check_axes,
